@@ -149,7 +149,7 @@ func ruleRunCompression(c *core.Ctx, rule string) {
 			return
 		}
 		loop := strings.ReplaceAll(core.ExprStr(fs.Init.(*ast.AssignStmt).Rhs[0])+";"+core.ExprStr(fs.Cond), " ", "")
-		o.Require(loop == "start;j<i-1", "the comparison loop runs over (%s), it must cover every adjacent pair of the run: j := start; j < i-1", loop)
+		o.Shape(loop == "start;j<i-1", "the comparison loop runs over (%s), it must cover every adjacent pair of the run: j := start; j < i-1", loop)
 		// the guarding comparison
 		okCmp := false
 		for _, bv := range g.BranchVertices() {
@@ -180,8 +180,8 @@ func ruleRunCompression(c *core.Ctx, rule string) {
 		fn := c.Prog.Func(cmapPkg, "(*File).SetMapping")
 		src := c.Prog.Src(fn.Decl.Body)
 		o.At(fn.Site(fn.Decl, ""))
-		o.Require(strings.Contains(src, "ifi==len(info)||info[i].x!=info[i-1].x+1||data[info[i].code]!=data[info[i-1].code]+1{"), "the run-break condition must compare code byte and CID of every adjacent pair")
-		o.Require(strings.Contains(src, "Value:data[info[start].code],"), "a range/single must carry the value of its first code")
+		o.Shape(strings.Contains(src, "ifi==len(info)||info[i].x!=info[i-1].x+1||data[info[i].code]!=data[info[i-1].code]+1{"), "the run-break condition must compare code byte and CID of every adjacent pair")
+		o.Shape(strings.Contains(src, "Value:data[info[start].code],"), "a range/single must carry the value of its first code")
 	})
 }
 
@@ -275,9 +275,9 @@ func ruleSimpleEncode(c *core.Ctx) {
 		}
 		o.Require(okLookup, "the in-use test does not look up the candidate code in t.info")
 		src := c.Prog.Src(fn.Decl.Body)
-		o.Require(strings.HasPrefix(src, "{key:=gidText{gid:gid,text:text}if_,ok:=t.code[key];ok{return0,ErrDuplicateCode}"), "a pair that already has a code must be rejected first")
-		o.Require(strings.Contains(src, "iflen(t.info)>=256{t.err=ErrOverflowreturn0,ErrOverflow}"), "the table-full exit must precede the search (it guarantees a free code exists)")
-		o.Require(strings.Contains(src, "t.info[bestCode]=&codeInfo{GID:gid,Width:width,Text:text}t.code[key]=bestCode"), "both tables must record the chosen code with glyph, width and text")
+		o.Shape(strings.HasPrefix(src, "{key:=gidText{gid:gid,text:text}if_,ok:=t.code[key];ok{return0,ErrDuplicateCode}"), "a pair that already has a code must be rejected first")
+		o.Shape(strings.Contains(src, "iflen(t.info)>=256{t.err=ErrOverflowreturn0,ErrOverflow}"), "the table-full exit must precede the search (it guarantees a free code exists)")
+		o.Shape(strings.Contains(src, "t.info[bestCode]=&codeInfo{GID:gid,Width:width,Text:text}t.code[key]=bestCode"), "both tables must record the chosen code with glyph, width and text")
 		// the overflow exit dominates the loop
 		for _, bv := range g.BranchVertices() {
 			if bv.Cond.Expr != nil && strings.ReplaceAll(core.ExprStr(bv.Cond.Expr), " ", "") == "len(t.info)>=256" {
